@@ -1,7 +1,7 @@
 SPECIFICATION Spec
 CONSTANTS
-  RichLeaves = FALSE
-  MaxOps = 2
+  RichLeaves = TRUE
+  MaxOps = 1
   PosOps = 1
 INVARIANTS
   ModelOK
